@@ -294,7 +294,23 @@ fn c13_case(ctx: &mut Ctx, rng: &mut Rng, i: u64) {
     let mut status: Option<ExitStatus> = None;
     let data2 = data.clone();
     let mut parent_extra: Vec<String> = vec![];
-    let m = run::monitored(|| -> Result<(), String> {
+    // join/capture may be called from a destructor while the caller's thread unwinds (a guard that shuts a job down):
+    // they return only after all commands have exited there, too
+    let unwinding = matches!(term, "join" | "capture") && rng.chance(150);
+    if unwinding {
+        ctx.count("pipelines_run_from_a_destructor_during_unwinding", 1);
+    }
+    // a signal handler of the caller may interrupt the parent's read()/poll() during capture()/communicate(): the call
+    // then fails with Interrupted (an honest outcome) - it never returns a shortened result as if all had been read
+    let eintr = !unwinding && matches!(term, "capture" | "communicate") && rng.chance(200);
+    if eintr {
+        crate::plan::seed(rng.next());
+        for kind in [k::READ, k::POLL] {
+            crate::plan::add(crate::plan::Rule { kind, scope: crate::plan::SCOPE_PARENT, nth: 0, fd: -1, act: crate::plan::ACT_FAIL, val: libc::EINTR as i64, prob: 30 });
+        }
+        ctx.count("pipelines_whose_exchange_may_be_interrupted_by_signal_handlers", 1);
+    }
+    let body = || -> Result<(), String> {
         match term {
             "join" => status = Some(pl.join().map_err(|e| e.to_string())?),
             "capture" => {
@@ -361,7 +377,8 @@ fn c13_case(ctx: &mut Ctx, rng: &mut Rng, i: u64) {
             }
         }
         Ok(())
-    });
+    };
+    let m = run::monitored(|| -> Result<(), String> { if unwinding { run::in_unwinding_destructor(body).unwrap_or_else(|| Err("the destructor did not run".into())) } else { body() } });
     if caller_blocks_sigpipe {
         unsafe { libc::pthread_sigmask(libc::SIG_SETMASK, &old_mask, std::ptr::null_mut()) };
     }
@@ -444,6 +461,11 @@ fn c13_case(ctx: &mut Ctx, rng: &mut Rng, i: u64) {
         return;
     }
     if let Some(Err(e)) = &m.result {
+        if eintr && (e.contains("nterrupted") || e.contains("os error 4")) {
+            ctx.count("pipelines_ended_by_an_injected_interruption(honest error, not judged further)", 1);
+            run::end_case();
+            return;
+        }
         ctx.violation(&format!("C13/failed/{}", term), &format!("pipeline failed: {}", e), w(J::Null));
         run::end_case();
         return;
@@ -630,7 +652,12 @@ fn c14_case(ctx: &mut Ctx, n: usize, kfail: usize, stdin_kind: &str, term: &str,
     // caller (it needs a lock whose owner is another thread)
     let handler_blocks = (n + 2 * kfail + term.len() + earlier.len()) % 3 == 0;
     ilog::EXIT_HANDLER_BLOCKS.store(handler_blocks, std::sync::atomic::Ordering::SeqCst);
-    let m = run::monitored(|| -> Result<String, PopenError> {
+    // in one attempt of six the terminator is called from a destructor while the caller's thread unwinds
+    let unwinding = (n + 3 * kfail + term.len() + 2 * earlier.len() + stdin_kind.len()) % 6 == 0;
+    if unwinding {
+        ctx.count("attempts_from_a_destructor_during_unwinding", 1);
+    }
+    let body = || -> Result<String, PopenError> {
         match term {
             "popen" => pl.popen().map(|v| format!("{} commands started", v.len())),
             "join" => pl.join().map(|s| format!("{:?}", s)),
@@ -639,7 +666,8 @@ fn c14_case(ctx: &mut Ctx, n: usize, kfail: usize, stdin_kind: &str, term: &str,
             "stream_stdout" => pl.stream_stdout().map(|_| "reader".into()),
             _ => pl.stream_stdin().map(|_| "writer".into()),
         }
-    });
+    };
+    let m = run::monitored(|| -> Result<String, PopenError> { if unwinding { run::in_unwinding_destructor(body).unwrap_or_else(|| Ok("the destructor did not run".into())) } else { body() } });
     ilog::EXIT_HANDLER_BLOCKS.store(false, std::sync::atomic::Ordering::SeqCst);
     if caller_blocks_sigpipe {
         unsafe { libc::pthread_sigmask(libc::SIG_SETMASK, &old_mask, std::ptr::null_mut()) };
@@ -847,6 +875,26 @@ pub fn run_c14(ctx: &mut Ctx) {
         let attempts = rng.range(4, 10) as usize;
         let terms: Vec<&str> = (0..attempts).map(|_| *rng.pick(&["popen", "join", "capture", "communicate", "stream_stdout"])).collect();
         let dir2 = dir.clone();
+        // in every other storm one more thread of the caller keeps writing the environment (and the command that
+        // cannot be started is looked for on PATH): a lock that thread holds at the moment of a fork is nothing the
+        // forked child may wait for
+        let env_writer = i % 2 == 1;
+        let missing: std::ffi::OsString = if env_writer { "no-such-program-anywhere-on-PATH".into() } else { dir.join("no-such-program").into_os_string() };
+        let stop_w = Arc::new(AtomicBool::new(false));
+        let writer = if env_writer {
+            ctx.count("failing_attempts_while_another_thread_writes_the_environment", attempts as i64);
+            let stop_w = stop_w.clone();
+            Some(std::thread::spawn(move || {
+                let mut n = 0u64;
+                while !stop_w.load(SeqCst) {
+                    std::env::set_var("VERIF_C14_SPIN", n.to_string());
+                    std::env::remove_var("VERIF_C14_SPIN");
+                    n += 1;
+                }
+            }))
+        } else {
+            None
+        };
         let m = run::monitored(|| {
             let mut hs = vec![];
             for _ in 0..2 {
@@ -872,12 +920,12 @@ pub fn run_c14(ctx: &mut Ctx) {
             for (a, term) in terms.iter().enumerate() {
                 // cat | cat | <cannot be started>: the first two wait for end-of-file on their stdin
                 let c = |j: usize| stage_exec_raw(&vchild, j, &dir2, a);
-                let pl = Pipeline::from_exec_iter(vec![c(0), c(1), Exec::cmd(dir2.join("no-such-program"))]).stdin(Redirection::Pipe);
+                let pl = Pipeline::from_exec_iter(vec![c(0), c(1), Exec::cmd(&missing)]).stdin(Redirection::Pipe);
                 let r = match *term {
                     "popen" => pl.popen().map(|_| ()),
                     "join" => pl.stdout(NullFile).join().map(|_| ()),
-                    "capture" => Pipeline::from_exec_iter(vec![c(0), c(1), Exec::cmd(dir2.join("no-such-program"))]).stdin(vec![b'z'; 1000]).capture().map(|_| ()),
-                    "communicate" => Pipeline::from_exec_iter(vec![c(0), c(1), Exec::cmd(dir2.join("no-such-program"))]).stdin(vec![b'z'; 1000]).communicate().map(|_| ()),
+                    "capture" => Pipeline::from_exec_iter(vec![c(0), c(1), Exec::cmd(&missing)]).stdin(vec![b'z'; 1000]).capture().map(|_| ()),
+                    "communicate" => Pipeline::from_exec_iter(vec![c(0), c(1), Exec::cmd(&missing)]).stdin(vec![b'z'; 1000]).communicate().map(|_| ()),
                     _ => pl.stream_stdout().map(|_| ()),
                 };
                 let snapshot: Vec<i32> = lingerers.lock().unwrap().clone();
@@ -895,6 +943,10 @@ pub fn run_c14(ctx: &mut Ctx) {
             let held: Vec<Vec<Popen>> = hs.into_iter().map(|h| h.join().unwrap_or_default()).collect();
             (bad, done, held)
         });
+        stop_w.store(true, SeqCst);
+        if let Some(h) = writer {
+            let _ = h.join();
+        }
         ctx.count("failing_attempts_while_other_threads_spawn", attempts as i64);
         ctx.distinct(&format!("c14conc|{}|{}", attempts, i));
         if let Some(c) = &m.cert {
